@@ -660,8 +660,8 @@ func genText(t *rapid.T) string {
 func TestParseText(t *testing.T) {
 	harness.Run(t, harness.Spec[string]{
 		Name: "parse-text", N: 30000,
-		Rule: "strings from three generators (canonical String() output; structured near-misses: wrong/missing separators, extra parts, unknown kinds, empty, signs, spaces, non-ASCII digits, overlong numbers; arbitrary Unicode). An independent recogniser of kind/ref[:version|:-] decides: not of that shape or unknown kind => all three parsers must return an error; of that shape with in-range numbers => exactly that id; out-of-range numbers, explicit signs, bounds/<n> and versions on unversioned kinds => not judged. Non-trivial = the recogniser reaches a verdict (error or equality) for a string containing '/'",
-		Gen:  genText,
+		Rule:  "strings from three generators (canonical String() output; structured near-misses: wrong/missing separators, extra parts, unknown kinds, empty, signs, spaces, non-ASCII digits, overlong numbers; arbitrary Unicode). An independent recogniser of kind/ref[:version|:-] decides: not of that shape or unknown kind => all three parsers must return an error; of that shape with in-range numbers => exactly that id; out-of-range numbers, explicit signs, bounds/<n> and versions on unversioned kinds => not judged. Non-trivial = the recogniser reaches a verdict (error or equality) for a string containing '/'",
+		Gen:   genText,
 		Check: checkText,
 		Classify: func(s string) (bool, []string) {
 			v, _ := recognise(s, elementKinds, true)
